@@ -80,6 +80,7 @@ class ClassInfo:
         self.methods: dict[str, FuncInfo] = {}
         self.props: dict[str, PropInfo] = {}
         self.attrs: dict[str, ast.expr] = {}
+        self.ann_fields: list[str] = []      # annotated fields in order (NamedTuple / dataclass style)
         for st in _strip_doc(node.body):
             if isinstance(st, ast.FunctionDef):
                 fi = FuncInfo(module, st, self, f"{node.name}.{st.name}")
@@ -96,8 +97,10 @@ class ClassInfo:
                 for t in st.targets:
                     if isinstance(t, ast.Name):
                         self.attrs[t.id] = st.value
-            elif isinstance(st, ast.AnnAssign) and st.value is not None and isinstance(st.target, ast.Name):
-                self.attrs[st.target.id] = st.value
+            elif isinstance(st, ast.AnnAssign) and isinstance(st.target, ast.Name):
+                self.ann_fields.append(st.target.id)
+                if st.value is not None:
+                    self.attrs[st.target.id] = st.value
         self._mro = None
 
     def bases(self, repo: "Repo"):
